@@ -1127,3 +1127,18 @@ theorem reachable_inv {s : State} (hr : Reachable s) : Inv s := by
   | step e _ he ih => exact inv_step ih e he
 
 end Asynkit.Lock
+
+namespace Asynkit.Lock
+
+theorem wakeUpFirst_waiters_length (s : State) (k k' : Nat) :
+    ((s.wakeUpFirst k).locks k').waiters.length = (s.locks k').waiters.length := by
+  unfold State.wakeUpFirst
+  simp only []
+  split
+  · rfl
+  · split
+    · rfl
+    · split <;> by_cases e : k' = k <;> simp [State.enqueue, setFutOf, e]
+
+
+end Asynkit.Lock
